@@ -2,7 +2,8 @@
 //!
 //! Cases are `<entry> <hex bytes>` (inputs are arbitrary byte strings, so the seed files are
 //! built here and every case carries the raw bytes), `pl_write <kind> <abstract list>`, and
-//! (see `c17_io.rs`) `apply …`, `execlookup …`, `bootdata …` for the path-taking entry points.
+//! (see `c17_io.rs`) `apply …`, `execlookup …`, `bootdata …` for the path-taking entry points, and
+//! (see `c17_leak.rs`) `leak <n> <any of these>`: the case repeated in one process, nothing may pile up.
 //! `run` wraps every call in `guarded` + `alloc::measured` and prints one canonical outcome
 //! line: `none` | `some:<digest>` | `ok:<digest>…` | `err` | `panic:<file>:<line>`, with
 //! ` overalloc:<n>` appended when the allocation budget `64·|input| + 2^24` was exceeded.
@@ -331,6 +332,7 @@ pub fn run(case: &str, input: &str) -> String {
             crate::alloc::measured(input.len(), move || guarded(move || run_pl_write(game, &es)))
         }
         "apply" | "execlookup" | "bootdata" => crate::c17_io::run(&f),
+        "leak" => crate::c17_leak::run(&f),
         _ => "bad-case".into(),
     }
 }
@@ -927,6 +929,7 @@ pub fn generate(thorough: bool, seed: u64, out: &mut dyn Write) {
         }
     }
     crate::c17_io::generate(thorough, &mut rng, out);
+    crate::c17_leak::generate(thorough, &mut rng, out);
 }
 
 // ------------------------------------------------------------------------------------------
